@@ -361,6 +361,11 @@ impl<K: Elem, V: Elem> MapDrv<K, V> {
         let a = self.map.contains_key(&k);
         // termination as a logical-step bound: one lookup compares at most once per bucket it can reach
         let calls = crate::fuse::count(crate::fuse::Class::Eq) - e0;
+        // a lookup examines every bucket at most once (each probe step covers a fresh group), so the key is compared
+        // with each stored element at most once
+        if self.lawful && self.compare && calls > self.map.len() as u64 {
+            crate::viol!("contains_key({}): one lookup made {} equality calls although the map holds only {} elements (an element was compared more than once)", id, calls, self.map.len());
+        }
         if calls > 32 {
             // (the bucket count is read from the table itself, not from the last validation)
             let buckets = self.map.verif_dump().bucket_mask as u64 + 1;
